@@ -63,6 +63,9 @@ THEOREMS = [
     "C06_nestfine_refines",
     "C06_nestfine_no_downstream",
     "C06_nestfine_nobody_running",
+    "C06_flow_hit_not_blamed",
+    "C06_flow_direct_hit_witness",
+    "C06_pull_contained",
 ]
 RULE = (
     "(dag) random DAGs (2..N term nodes) x every kind of fault position (starting node, inner node, two at once) x "
@@ -179,6 +182,9 @@ def gen_cases(rng, tier):
     # hand-wired flows: nodes triggered more than once, `If` branches (oracle only)
     for _ in range(120 if quick else 2500):
         yield gen_flow_case(rng, N.EXCEPTIONS)
+    # failures during pulls of a child inside a workflow
+    for _ in range(70 if quick else 1200):
+        yield gen_pull_case(rng, N.EXCEPTIONS)
     # real executors: ThreadPoolExecutor and the library's own CloudpickleProcessPoolExecutor (a real, spawned process)
     rx_classes = ["Boom", "MyKeyError", "IndexError", "ValueError", "CustomError", "StopIteration", "NotReadyError",
                   "MyLookupError", "ZeroDivisionError", "FailedChildError"]
@@ -404,6 +410,12 @@ def _run_once_with_chain(case):
 
 
 def run_impl(case):
+    if case["kind"] == "pull":
+        r = _run_pull(case)
+        return {"obs": [str(sorted((k, str(v)) for k, v in r.items()))], "r": r, "runs": [r],
+                "stats": {"pull": 1, "fault_hit": int(any(r["calls"][i] for i in case["fails"])),
+                          "pull_refused": int(r["refused"]), f"outcome:{r['outcome']}": 1,
+                          "pull_cosimulated": int(bool(r["chain"] is not None and not r["refused"]))}}
     if case["kind"] == "rx":
         r = _run_rx(case)
         return {"obs": [str(sorted(r.items()))], "r": r, "runs": [r],
@@ -444,6 +456,7 @@ def run_impl(case):
                  "several_faults": int(len(hit) > 1), "history_runs": len(r.get("more", ())),
                  "suppressed": int(bool(case.get("suppress"))), "outer_macro": int(case.get("outer") == "macro"),
                  "nested_fine": int(bool(case.get("nfine"))),
+                 "cache_hits_in_reruns": sum(len(x["hits"]) for x in r.get("more", ())),
                  "nested_fine_halves_below_top": sum(1 for t in r["trace"] if case.get("nfine") and "." in t.split(":")[-1]),
                  **{f"exc:{case['fails'][l]}": 1 for l in hit},
                  **({"nest_dfs_cases": 1, "nest_dfs_schedules": len(runs)} if runs else {})}
@@ -525,6 +538,9 @@ def nontrivial(case, impl):
 def model_input(case, impl):
     if "r" not in impl or case.get("base") or case["kind"] == "rx":  # harness error / outside the model
         return ["n 0", "run"]
+    if case["kind"] == "pull":
+        r = impl["r"]
+        return _pull_model_input(case, r) if (r["chain"] is not None and not r["refused"]) else ["n 0", "run"]
     if case["kind"] == "ktab":
         return [f"ktab {_kind_of(case['exc'])} " + " ".join("1" if e else "0" for e in case["execs"] + [False])]
     if case["kind"] == "flow":
@@ -542,6 +558,7 @@ def model_input(case, impl):
                     lines.append(f"sel {_pstr(p)}")
                     lines.append("exec " + " ".join(str(i) for i in range(n) if _pstr(p + (i,)) in step["exec"]))
                     lines.append("fails " + " ".join(str(i) for i in range(n) if _pstr(p + (i,)) in step["fails"]))
+                    lines.append("hits " + " ".join(str(i) for i in range(n) if _pstr(p + (i,)) in rk["hits"]))
                 lines.append("nsched " + " ".join(rk["trace"]))
                 lines.append("nrerun")
                 lines.append(_ncycle(case))
@@ -559,6 +576,17 @@ def model_input(case, impl):
 
 
 def diff(case, impl, model):
+    if case["kind"] == "pull":
+        r = impl["r"]
+        if r["chain"] is None or r["refused"]:
+            return None
+        mine = _pull_obs(case, r)
+        theirs = [l for l in model if l.split(" ")[1] in ("exec", "failed", "seen")]
+        if mine == theirs:
+            return None
+        k = next((k for k, (a, b) in enumerate(zip(mine, theirs)) if a != b), min(len(mine), len(theirs)))
+        return {"index": k, "impl": mine[k] if k < len(mine) else None, "model": theirs[k] if k < len(theirs) else None,
+                "chain": r["chain"]}
     if case["kind"] == "rx":
         return None  # real pools: the schedule is the operating system's; judged by the oracle
     if case["kind"] == "ktab":
@@ -664,6 +692,8 @@ def oracle(case, impl):
         return _ktab_oracle(case, r)
     if case["kind"] == "rx":
         return _rx_oracle(case, r)
+    if case["kind"] == "pull":
+        return _pull_oracle(case, r)
     if case["kind"] == "single":
         sup = case["suppress"]
         s = lambda c: {"clause": c, "kind": "single", "suppress": sup}  # noqa: E731
@@ -873,6 +903,11 @@ def gen_nest_case(rng, depth, classes, n_max=4, base=False):
                                            [c for c in comps if rng.random() < 0.2]),
                             "choices": [] if rng.random() < 0.4 else [rng.choice([0, 0, 0, 1, 2, 3]) for _ in range(60)]})
     hist = {"history": history} if history else {}
+    if history and rng.random() < 0.45:
+        # caching ON: nodes that completed before answer from their cache; a node that is to fail gets an input edited
+        hist["cache"] = True
+        for st_ in history:
+            st_["edit"] = sorted(st_["fails"])
     if not base and rng.random() < 0.3:
         hist["suppress"] = True
     if not base and rng.random() < 0.3:
@@ -880,7 +915,8 @@ def gen_nest_case(rng, depth, classes, n_max=4, base=False):
     return {"kind": "nest", **hist, "prog": prog, "fails": fails, "exec": sorted(ex),
             "mode": rng.choice(["ctl", "ctl", "ctl-cloudpickle"]),
             "choices": [] if lazy else [rng.choice([0, 0, 0, 1, 2, 3]) for _ in range(60)],
-            "prerun": rng.random() < 0.3, **({"base": True} if base else {})}
+            # (with caching on, the history itself is the re-run: no separate pre-run)
+            "prerun": rng.random() < 0.3 and not hist.get("cache"), **({"base": True} if base else {})}
 
 
 def _chain_prog(depth, pos):
@@ -944,7 +980,9 @@ def _build_nest(case):
         for i in range(prog["n"]):
             ch = owner.children[f"n{i}"]
             nodes[path + (i,)] = ch
-            ch.use_cache = False
+            # caching only where the case asks for it, and only on function nodes (a composite answering from its
+            # cache runs none of its children: C05's subject)
+            ch.use_cache = bool(case.get("cache")) and str(i) not in prog["kids"]
             if str(i) in prog["kids"]:
                 rec(ch, prog["kids"][str(i)], path + (i,))
 
@@ -1090,6 +1128,14 @@ def _run_nest(case):
         N.EXC.clear()
         N.RAISED.clear()
         N.EPOCH[0] += 1
+        for l in step.get("edit", ()):
+            # an input only this node sees is edited (its cache, if any, no longer answers)
+            pe = _ppath(l)
+            pr = progs[pe[:-1]]
+            for name, sl in zip("abc", pr["slots"][str(pe[-1])]):
+                if isinstance(sl, list) and not sl:
+                    nodes[pe].inputs[name].value = f"e{N.EPOCH[0]}"
+                    break
         prev = {_ppath(k): v for k, v in last["outs"].items()}
         last = _nest_one_run(case, step, wf, nodes, progs, composites, gid_path, leaf_gid, prev)
         more.append(last)
@@ -1183,6 +1229,11 @@ def _nest_one_run(case, step, wf, nodes, progs, composites, gid_path, leaf_gid, 
             "before": None if before is None else {_pstr(p): v for p, v in before.items()},
             "calls": {_pstr(p): calls.count(g) for p, g in leaf_gid.items()},
             "late_jobs": [sched.ident(j[0]) for j in sched.jobs],
+            # function nodes that answered from their cache: started and finished with the parent, function not invoked
+            "hits": sorted(_pstr(p) for p, g in leaf_gid.items()
+                           if calls.count(g) == 0 and not nodes[p].running and not nodes[p].failed
+                           and p[-1] in [int(l[1:]) for l in getattr(nodes[p[:-1]], "provenance_by_execution", [])]
+                           and case.get("cache")),
             "options_seen": list(sched.options_seen),
             "recovery_file": any(f.startswith("recovery") for _d, _s, fs in __import__("os").walk(".") for f in fs),
             "ret": "raised" if exc is not None else "none" if ret is None else "value",
@@ -1531,7 +1582,7 @@ def gen_flow_case(rng, classes, n_max=6):
     mult = {}
     for i in hidden:
         mult[i] = (1 if i in starters else 0) + sum(mult[j] for j, t, _s in edges if t == i)
-    return {"kind": "flow", "n": n, "order": order, "edges": edges, "starters": starters, "ifs": ifs,
+    case_ = {"kind": "flow", "n": n, "order": order, "edges": edges, "starters": starters, "ifs": ifs,
             "fails": {str(i): rng.choice(classes) for i in fl},
             # mostly only once-triggered nodes go to the executor; in a third of the executor flows any node may: a
             # child triggered again while it is out is refused (and, if it fails later, swept up with its own error)
@@ -1539,6 +1590,26 @@ def gen_flow_case(rng, classes, n_max=6):
                 i for i in range(n) if (mult[i] <= 1 or anyx) and rng.random() < 0.45),
             "choices": [] if rng.random() < 0.4 else [rng.choice([0, 0, 0, 1, 2, 3]) for _ in range(40)],
             "prerun": rng.random() < 0.6}
+    if not case_["exec"] and rng.random() < 0.35:
+        # caching on: everybody who completed in the first run answers from the cache in the second; the failing nodes
+        # get an input edited
+        case_["cache"] = True
+        case_["prerun"] = True
+    return case_
+
+
+_IF_CALLS: dict = {}
+
+
+class _Truth:
+    """a condition with a fixed truth value that counts how often it is asked (= invocations of the `If`'s function)"""
+
+    def __init__(self, i, value):
+        self.i, self.value = i, value
+
+    def __bool__(self):
+        _IF_CALLS[self.i] = _IF_CALLS.get(self.i, 0) + 1
+        return self.value
 
 
 class _BadTruth:
@@ -1550,6 +1621,7 @@ class _BadTruth:
     def __bool__(self):
         from . import nodes_c06 as N
 
+        _IF_CALLS[self.i] = _IF_CALLS.get(self.i, 0) + 1
         e = N.FAMILY[self.key](f"if{self.i}")
         N.RAISED[self.i] = e
         raise e
@@ -1569,16 +1641,17 @@ def _run_flow(case):
     from .execsim import CtlExecutor, Instrument, Stuck, term_str
 
     N.reset()
+    _IF_CALLS.clear()
     n = case["n"]
     wf = Workflow("w", autoload=None, automate_execution=False)
     wf.use_cache = False
     ns = {}
     for i in case["order"]:
         if str(i) in case["ifs"]:
-            ns[i] = If(label=f"n{i}", condition=case["ifs"][str(i)])
+            ns[i] = If(label=f"n{i}", condition=_Truth(i, case["ifs"][str(i)]))
         else:
             ns[i] = N.term_node(i, label=f"n{i}")
-        ns[i].use_cache = False
+        ns[i].use_cache = bool(case.get("cache"))
         wf.add_child(ns[i])
     for j, i, sig in case["edges"]:
         getattr(ns[j].signals.output, sig) >> ns[i].signals.input.run
@@ -1593,12 +1666,15 @@ def _run_flow(case):
         wf.run()
         before = {i: out(i) for i in ns}
         N.CALL_LOG.clear()
+        _IF_CALLS.clear()
         N.EPOCH[0] = 1
     for i, key in case["fails"].items():
         if i in case["ifs"]:
             ns[int(i)].inputs.condition.value = _BadTruth(int(i), key)
         else:
             N.EXC[int(i)] = key
+            if case.get("cache"):
+                ns[int(i)].inputs.a.value = "e"  # an input only the failing node sees: its cache does not answer
     sched = _Sched(list(case["choices"]), ident=lambda owner: owner.label[1:])
     exe = CtlExecutor(sched, "ctl")
     for i in case["exec"]:
@@ -1607,12 +1683,13 @@ def _run_flow(case):
     import pyiron_workflow.nodes.composite as comp
     from pyiron_workflow.mixin.run import ReadinessError
 
-    collected = []
+    collected, err_child = [], {}
     orig_collect = getattr(comp.Composite, "_collect_child_error", None)
     if orig_collect is not None:
         def collect(self_, errors, accounted_for, child, error, n_started_before):
             refused = len(self_.provenance_by_execution) == n_started_before
             collected.append(f"{child.label[1:]}:{'refused' if refused else 'run'}")
+            err_child[id(error)] = child.label[1:]
             return orig_collect(self_, errors, accounted_for, child, error, n_started_before)
 
         comp.Composite._collect_child_error = collect
@@ -1644,12 +1721,15 @@ def _run_flow(case):
                 seen = "fc none"
             elif id(cause) in by_obj:
                 seen = f"fc orig:{by_obj[id(cause)]}"
-            elif type(cause) is ReadinessError:
-                seen = "fc refusal:" + str(cause).split(" ", 1)[0][1:]
+            elif type(cause) is ReadinessError and id(cause) in err_child:
+                # a refusal: which child it belongs to is what the composite was told when it collected it
+                seen = "fc refusal:" + err_child[id(cause)]
             else:
                 seen = "fc other:" + type(cause).__name__
         r = {
             "collected": collected, "conns": conns, "seen": seen,
+            # invocations of the wrapped functions in this run (an `If`'s: those of its condition's truth value)
+            "fcalls": {str(i): (N.CALL_LOG.count(i) if str(i) not in case["ifs"] else _IF_CALLS.get(i, 0)) for i in ns},
             "outcome": outcome, "chain_types": c06_chain(exc),
             "raised_is_orig": {str(i): any(e is x for x in _chain_objs(exc)) for i, e in N.RAISED.items()},
             "raised": sorted(str(i) for i in N.RAISED),
@@ -1695,7 +1775,7 @@ def _flow_oracle(case, r):
                       "signature": sig("reaches-caller")})
     elif (len(hit) == 1 and not r["raised_is_orig"].get(hit[0])
           # a refusal of ANOTHER child (triggered again while it was out) is a second, genuine error of the run
-          and all(c.split(":")[0] == hit[0] for c in r["collected"])):
+          and not any(c.split(":")[0] != hit[0] and c.endswith(":refused") for c in r["collected"])):
         fails.append({"clause": "original-exception-lost",
                       "detail": f"{case['fails'][hit[0]]} raised by {hit[0]} is not in the cause chain {r['chain_types']}",
                       "signature": sig("cause")})
@@ -1859,7 +1939,8 @@ def _flow_obs(case, r):
         "W truth " + " ".join(f"{i}:{'ND' if r['outs'][str(i)] == 'ND' else tv[r['truth'][str(i)]]}" for i in ifs),
         f"W seen {r['seen']}",
         "W queue 0",
-    ] + ([f"W running [{','.join(map(str, r['running_children']))}]",
+    ] + ([] if case["exec"] else ["W calls " + " ".join(
+        f"{i}:{r['fcalls'].get(str(i), 0)}" for i in range(case["n"]))]) + ([f"W running [{','.join(map(str, r['running_children']))}]",
           "W status " + ("ended" if not r["outcome"].startswith("stuck") else r["outcome"])] if case["exec"] else [])
 
 
@@ -1873,6 +1954,8 @@ def _flow_model_input(case, r):
     lines.append("wfails " + " ".join(sorted(case["fails"], key=int)))
     if case.get("prerun"):
         lines.append("wpre")
+    if case.get("cache"):
+        lines.append("wcache")
     if case["exec"]:
         lines.append("wexec " + " ".join(map(str, case["exec"])))
         lines.append("wsched " + " ".join(r["trace"]))
@@ -2122,4 +2205,223 @@ def _rx_oracle(case, r):
         fails.append({"clause": "downstream-of-failure-executed", "detail": "post ran", "signature": sig("no-downstream")})
     if r["out"] != (r["before"] if r["before"] is not None else "ND"):
         fails.append({"clause": "outputs-not-kept", "detail": f"{r['out']} vs {r['before']}", "signature": sig("outputs-kept")})
+    return fails
+
+
+# =====================================================================================================
+# failures during PULLS inside a composite (kind "pull")
+# =====================================================================================================
+#
+# case = {"kind": "pull", "n", "order", "slots", "target", "fails": {"i": key}, "exec": [...], "prerun", "choices"}
+# A child of a workflow is pulled (`node.pull()`): the library runs the parent on a temporary LINEAR wiring of the
+# target's data tree (children carry temporary labels meanwhile), then the target itself. A data tree with an executor
+# in it is refused up front on the tree as it is; whatever is not refused is judged by the usual clauses.
+
+
+def _pull_closure(case):
+    todo, seen = [case["target"]], set()
+    while todo:
+        i = todo.pop()
+        for sl in case["slots"][str(i)]:
+            for j in sl:
+                if j not in seen:
+                    seen.add(j)
+                    todo.append(j)
+    return seen
+
+
+def gen_pull_case(rng, classes):
+    n = rng.randint(2, 7)
+    order, slots = c01.gen_dag(rng, n, 0.6)
+    with_up = [i for i in range(n) if any(slots[str(i)])]
+    target = rng.choice(with_up) if with_up else rng.randrange(n)
+    case = {"kind": "pull", "n": n, "order": order, "slots": slots, "target": target}
+    clo = sorted(_pull_closure(case))
+    fl = rng.sample(clo, min(len(clo), rng.choice([1, 1, 1, 2]))) if clo else []
+    # mostly local data trees; sometimes an executor somewhere in the tree, preferably on the failing node
+    ex = []
+    if rng.random() < 0.35:
+        ex = sorted(set((fl[:1] if rng.random() < 0.6 else []) + [i for i in clo + [target] if rng.random() < 0.25]))
+    return {**case, "fails": {str(i): rng.choice(classes) for i in fl}, "exec": ex,
+            "prerun": rng.random() < 0.6, "choices": [], **({"outer": "macro"} if rng.random() < 0.3 else {})}
+
+
+def _run_pull(case):
+    import pyiron_workflow.nodes.composite as comp
+    from pyiron_workflow import Workflow
+
+    from . import nodes_c06 as N
+    from .execsim import CtlExecutor, Instrument, Stuck, term_str
+
+    N.reset()
+    prog = {"n": case["n"], "order": case["order"], "slots": case["slots"], "kids": {},
+            "gid": {str(i): i for i in range(case["n"])}, "ret": case["target"]}
+    if case.get("outer") == "macro":
+        N.PENDING.append(prog)
+        try:
+            wf = N.NestMacro(label="w")
+        finally:
+            N.PENDING.pop()
+    else:
+        wf = Workflow("w", autoload=None)
+        N.populate(wf, prog)
+    wf.use_cache = False
+    ns = {i: wf.children[f"n{i}"] for i in range(case["n"])}
+    for n_ in ns.values():
+        n_.use_cache = False
+    index = {id(n): i for i, n in ns.items()}
+    before = None
+    if case.get("prerun"):
+        wf.run()
+        before = {i: term_str(ns[i].outputs.o.value) for i in ns}
+        N.CALL_LOG.clear()
+        N.EPOCH[0] = 1
+    for i, key in case["fails"].items():
+        N.EXC[int(i)] = key
+    sched = _Sched(list(case["choices"]), ident=lambda owner: str(index[id(owner)]))
+    exe = CtlExecutor(sched, "ctl")
+    for i in case["exec"]:
+        ns[i].executor = exe
+    seen = {}
+    orig_on_run = comp.Composite._on_run
+
+    def on_run(self_):
+        if self_ is wf and "chain" not in seen:
+            chain, n = [], (self_.starting_nodes[0] if self_.starting_nodes else None)
+            while n is not None and len(chain) <= case["n"]:
+                chain.append(index[id(n)])
+                c = n.signals.output.ran.connections
+                n = c[0].owner if c else None
+            seen["chain"] = chain
+            seen["starters"] = [index[id(x)] for x in self_.starting_nodes]
+        return orig_on_run(self_)
+
+    outcome, exc = "ok", None
+    with Instrument(sched):
+        comp.Composite._on_run = on_run
+        try:
+            ns[case["target"]].pull()
+        except Stuck as e:
+            outcome = f"stuck:{e}"
+        except BaseException as e:  # noqa: BLE001
+            outcome, exc = f"raised:{type(e).__name__}", e
+        finally:
+            comp.Composite._on_run = orig_on_run
+        calls = list(N.CALL_LOG)
+        by_obj = {id(e): i for i, e in N.RAISED.items()}
+        chain_objs = _chain_objs(exc)
+        if exc is None:
+            seen_tok = "-"
+        elif type(exc).__name__ == "FailedChildError" and id(exc) not in by_obj:
+            cause = exc.__cause__
+            seen_tok = "fc none" if cause is None else f"fc orig:{by_obj[id(cause)]}" if id(cause) in by_obj else \
+                "fc other:" + type(cause).__name__
+        else:
+            seen_tok = "raw:" + type(exc).__name__
+        r = {
+            "outcome": outcome, "seen": seen_tok, "chain_types": [type(e).__name__ for e in chain_objs],
+            "raised_is_orig": {str(i): any(e is x for x in chain_objs) for i, e in N.RAISED.items()},
+            # refused up front: a ValueError while some node of the data tree has an executor, and nothing has run
+            "refused": isinstance(exc, ValueError) and not isinstance(exc, tuple(type(e) for e in N.RAISED.values()) or ())
+                       and any(ns[i].executor is not None for i in _pull_closure(case) | {case["target"]}) and not calls,
+            "chain": seen.get("chain"), "starters": seen.get("starters"),
+            "calls": {str(i): calls.count(i) for i in ns},
+            "exec_log": [index.get(id(wf.children.get(l)), -1) if wf.children.get(l) is not None else int(l[1]) for l in wf.provenance_by_execution]
+            if "chain" in seen else [],
+            "flags": {str(i): (bool(ns[i].running), bool(ns[i].failed)) for i in ns},
+            "wf_flags": (bool(wf.running), bool(wf.failed)),
+            "running_children": list(wf.running_children), "late_jobs": [sched.ident(j[0]) for j in sched.jobs],
+            "outs": {str(i): term_str(ns[i].outputs.o.value) for i in ns},
+            "before": None if before is None else {str(i): v for i, v in before.items()},
+            "trace": list(sched.trace),
+        }
+        try:
+            sched.drain()
+        except BaseException:  # noqa: BLE001
+            pass
+    return r
+
+
+def _pull_obs(case, r):
+    n = case["n"]
+    t = case["target"]
+    ex = list(r["chain"] or [])
+    started = [i for i in ex if r["calls"][str(i)] or r["flags"][str(i)][0] or i in case["exec"] and r["flags"][str(i)][1]]
+    ex = ex[: len(started)] + ([t] if r["calls"][str(t)] else [])
+    return [
+        f"W exec [{','.join(map(str, ex))}]",
+        f"W failed [{','.join(str(i) for i in range(n) if r['flags'][str(i)][1])}]",
+        f"W seen {r['seen']}",
+    ]
+
+
+def _pull_model_input(case, r):
+    chain = list(r["chain"] or []) + [case["target"]]
+    lines = [f"wn {case['n']}"]
+    for a, b in zip(chain, chain[1:]):
+        lines.append(f"wconn {4 * a} {b}")
+    lines.append(f"wstarters {chain[0]}")
+    lines.append("wfails " + " ".join(sorted(case["fails"], key=int)))
+    if case.get("prerun"):
+        lines.append("wpre")
+    if case["exec"]:
+        lines.append("wexec " + " ".join(map(str, case["exec"])))
+        lines.append("wsched " + " ".join(r["trace"]))
+    lines.append("wrun")
+    return lines
+
+
+def _pull_oracle(case, r):
+    fails = []
+    clo = _pull_closure(case)
+    tree_exec = sorted(i for i in case["exec"] if i in clo or i == case["target"])
+    hit = [i for i in case["fails"] if r["calls"][i] > 0]
+
+    def sig(c):
+        return {"clause": c, "kind": "pull", "executor_in_tree": bool(tree_exec),
+                "failing_on_exec": any(int(h) in case["exec"] for h in hit)}
+
+    if r["outcome"].startswith("stuck"):
+        return [{"clause": "run-does-not-terminate", "detail": r["outcome"], "signature": sig("terminate")}]
+    if r["refused"]:
+        # refused before anything ran: nothing to demand but that nothing was touched
+        touched = [i for i, (run, failed) in r["flags"].items() if run or failed]
+        if touched or r["wf_flags"] != (False, False):
+            fails.append({"clause": "refused-pull-left-traces", "detail": f"{touched} {r['wf_flags']}",
+                          "signature": sig("refused-clean")})
+        return fails
+    if not hit:
+        return fails
+    t = str(case["target"])
+    if not r["outcome"].startswith("raised:"):
+        fails.append({"clause": "error-does-not-reach-caller",
+                      "detail": f"the pull returned normally; {hit} raised during it (executors in the data tree: {tree_exec})",
+                      "signature": sig("reaches-caller")})
+    elif len(hit) == 1 and not r["raised_is_orig"].get(hit[0]):
+        fails.append({"clause": "original-exception-lost",
+                      "detail": f"{case['fails'][hit[0]]} raised by {hit[0]} is not in the cause chain {r['chain_types']}",
+                      "signature": sig("cause")})
+    for h in hit:
+        run, failed = r["flags"][h]
+        if run or not failed:
+            fails.append({"clause": "failing-node-flags", "detail": f"{h}: running={run} failed={failed}",
+                          "signature": sig("node-flags")})
+    if r["wf_flags"] != (False, True):
+        fails.append({"clause": "composite-flags", "detail": f"workflow (running, failed)={r['wf_flags']}",
+                      "signature": sig("composite-flags")})
+    left = [i for i, (run, _f) in r["flags"].items() if run]
+    if left or r["running_children"] or r["late_jobs"]:
+        fails.append({"clause": "node-left-running", "detail": f"{left} {r['running_children']} {r['late_jobs']}",
+                      "signature": sig("left-running")})
+    for h in hit:
+        expect = r["before"][h] if r["before"] is not None else "ND"
+        if r["outs"][h] != expect:
+            fails.append({"clause": "outputs-not-kept", "detail": f"{h}: {r['outs'][h]} vs {expect}",
+                          "signature": sig("outputs-kept")})
+    # nothing that takes data (directly or not) from a failed node runs — in particular not the pulled node
+    down = _downstream({"n": case["n"], "slots": case["slots"]}, [int(h) for h in hit])
+    ran = [i for i in sorted(down) if r["calls"][str(i)] > 0]
+    if ran:
+        fails.append({"clause": "downstream-of-failure-executed",
+                      "detail": f"{ran} ran although {hit} failed (pulled node {t})", "signature": sig("no-downstream")})
     return fails
